@@ -1,7 +1,251 @@
 import Driver.Common
-open Lean Drv
+import NriModel.Launch
+open Lean Drv Nri Nri.Launch
+
+/-!
+Driver for C18. One case = one generated plugin directory + drop-in directory on which a real
+`Adaptation` was started, sent two creation requests and stopped.
+
+`in  = {entries:[{name,kind,mode,content,target,behave}], dropins:[{name,kind,content}], nodir,
+        nodropins, root}`
+`obs = {start, log:[{who,ev,arg}], probes:[{file,argv,env,fds,configured,config,runtime,after}],
+        stray, r1, r2}`
+-/
 namespace Drv.C18
-/-- placeholder until the property's driver is written -/
-def judge (_ : Json) : Except String Verdict := .error "C18 driver not implemented"
+
+structure EntryIn where
+  name : String
+  kind : String
+  mode : Nat
+  content : String
+  target : String
+  behave : String
+
+def decEntry (j : Json) : Except String EntryIn := do
+  pure { name := ← getStr j "name", kind := ← getStr j "kind", mode := ← getNat j "mode",
+         content := getStrD j "content", target := getStrD j "target", behave := getStrD j "behave" "ok" }
+
+def behaviourOf : String → Behaviour
+  | "exit" => .exitsAtOnce | "hang" => .neverRegisters | "cfgfail" => .configFails
+  | "syncfail" => .syncFails | "die" => .diesLater | _ => .ok
+
+/-- the exec fact of an entry (what happens when NRI tries to run it), from how the harness
+    made the file -/
+def execOf (e : EntryIn) (root : Bool) : Exec :=
+  let canExec := if root then hasExecBit e.mode else (e.mode / 64) % 2 = 1
+  match e.kind with
+  | "file" =>
+    match e.content with
+    | "probe" => if canExec then .runs (behaviourOf e.behave) else .cannot
+    | "script" => if canExec then .runs .exitsAtOnce else .cannot
+    | _ => .cannot           -- plain text: ENOEXEC; bare WebAssembly header: does not load
+  | "symlink" => if e.target == "probe" then .runs (behaviourOf e.behave) else .cannot
+  | _ => .cannot
+
+/-- does a process started from this entry write reports (is it our probe)? -/
+def observable (e : EntryIn) : Bool :=
+  (e.kind == "file" && e.content == "probe") || (e.kind == "symlink" && e.target == "probe")
+
+def toEntry (e : EntryIn) (root : Bool) : Entry :=
+  { name := S e.name,
+    kind := match e.kind with | "file" => .file | "dir" => .dir | "symlink" => .symlink | _ => .other,
+    mode := if e.kind == "symlink" then 0o777 else e.mode % 512,
+    exec := execOf e root }
+
+structure ProbeObs where
+  file : String
+  env : List String
+  fds : List String
+  configured : Bool
+  config : String
+  runtime : String
+  after : String
+
+def decProbe (j : Json) : Except String ProbeObs := do
+  pure { file := ← getStr j "file", env := ← getStrList j "env", fds := ← getStrList j "fds",
+         configured := ← getBool j "configured", config := getStrD j "config",
+         runtime := getStrD j "runtime", after := ← getStr j "after" }
+
+structure LogLine where
+  who : String
+  ev : String
+  arg : String
+
+def decLog (j : Json) : Except String LogLine := do
+  pure { who := ← getStr j "who", ev := ← getStr j "ev", arg := getStrD j "arg" }
+
+def evName : Ev → String
+  | .start => "start" | .configure => "configure" | .synchronize => "synchronize"
+  | .create n => s!"create:r{n}"
+
+def lineName (l : LogLine) : String := if l.ev == "create" then s!"create:{l.arg}" else l.ev
+
+def sortStrings (l : List String) : List String := (l.toArray.qsort (· < ·)).toList
+
+def expectedEnv (idx base : Str) : List String :=
+  sortStrings ((childEnv idx base).map fun (k, v) => U k ++ "=" ++ U v)
+
+def expectedFds : List String :=
+  childFds.map fun n => s!"{n}:{if n < 3 then "null" else "socket"}"
+
+def nondecreasing : List Nat → Bool
+  | [] => true
+  | [_] => true
+  | a :: b :: rest => a ≤ b && nondecreasing (b :: rest)
+
+def idxOfFile (file : String) : Nat :=
+  match parsePluginName (S file) with
+  | some (idx, _) => idxVal idx
+  | none => 0
+
+def judge (j : Json) : Except String Verdict := do
+  let inp ← getObj j "in"
+  let obs ← getObj j "obs"
+  let stream := getStrD inp "stream"
+  let root := getBoolD inp "root" true
+  let nodir := getBoolD inp "nodir"
+  let nodropins := getBoolD inp "nodropins"
+  let esIn ← (← getArr inp "entries").mapM decEntry
+  let esIn := if nodir then [] else esIn
+  let dsJ ← getArr inp "dropins"
+  let dropins : Dropins ← (if nodropins then pure [] else dsJ.mapM fun d => do
+    let n ← getStr d "name"
+    let k ← getStr d "kind"
+    pure (S n, if k == "dir" then Dropin.dir else Dropin.file (S (getStrD d "content"))))
+  let anyDirDropin := dropins.any fun (_, v) => v == Dropin.dir
+  let entries := esIn.map (toEntry · root)
+  let oStart ← getStr obs "start"
+  let oLog ← (← getArr obs "log").mapM decLog
+  let oProbes ← (← getArr obs "probes").mapM decProbe
+  let oStray := getNatD obs "stray"
+  let oR1 := getStrD obs "r1"
+  let oR2 := getStrD obs "r2"
+  let eventsFor (file : String) : List String := (oLog.filter (·.who == file)).map lineName
+  let linesOf (name : String) : List String := (oLog.filter (fun l => lineName l == name)).map (·.who)
+  let isObservable (file : String) : Bool := esIn.any fun e => e.name == file && observable e
+
+  -- ================= model (of the repaired code)
+  let (agree, mwhy, mdesc) : Bool × String × String := match startUp dropins entries with
+    | .error _ =>
+      (oStart == "config" && oLog.isEmpty && oProbes.isEmpty, "model: Start fails reading a drop-in, nothing launched", "start=config")
+    | .ok su =>
+      let obsStarted := su.started.filter fun s => s.process && isObservable (U s.found.fileName)
+      let files := obsStarted.map fun s => U s.found.fileName
+      let perFile := obsStarted.all fun s =>
+        eventsFor (U s.found.fileName) == (eventsOf s 2).map evName
+      let noOthers := oLog.all (fun l => files.contains l.who) && oProbes.all (fun p => files.contains p.file)
+      let launchOrder := linesOf "start" == files
+      let act := su.active.filter fun f => isObservable (U f.fileName)
+      let act2 := (activeAfterFirst su.active).filter fun f => isObservable (U f.fileName)
+      let asSet (l : List String) := sortStrings l
+      let r1 := linesOf "create:r1"
+      let r2 := linesOf "create:r2"
+      let invoked := asSet r1 == asSet (act.map (U ·.fileName)) && asSet r2 == asSet (act2.map (U ·.fileName))
+        && nondecreasing (r1.map idxOfFile) && nondecreasing (r2.map idxOfFile)
+      let probesOk := obsStarted.all fun s =>
+        match oProbes.find? (·.file == U s.found.fileName) with
+        | none => false
+        | some p =>
+          p.env == expectedEnv s.found.idx s.found.base && p.fds == expectedFds &&
+          p.configured == s.configured && (!s.configured || (p.config == U s.found.cfg && p.runtime == "verif-runtime/v18")) &&
+          (p.after == "gone") == stoppedEventually s
+      let ok := oStart == "ok" && perFile && noOthers && launchOrder && invoked && probesOk && oStray == 0 && oR1 == "" && oR2 == ""
+      let why := if oStart != "ok" then s!"model: Start succeeds; impl: {oStart}"
+        else if !perFile then "per-plugin event sequence differs from the model's"
+        else if !noOthers then "events or reports from a file the model does not launch"
+        else if !launchOrder then s!"launch order: model {files} impl {linesOf "start"}"
+        else if !invoked then s!"invocations: model r1={act.map (U ·.fileName)} r2={act2.map (U ·.fileName)} impl r1={r1} r2={r2}"
+        else if !probesOk then "environment / descriptors / configuration / reaping of a probe differ from the model's"
+        else if oStray != 0 then "stray processes after Stop"
+        else "a request failed"
+      (ok, why, s!"start=ok launched={files} active={act.map (U ·.fileName)}")
+
+  -- ================= specification, directly on the observation
+  let pluginFile (e : EntryIn) : Bool :=
+    e.kind == "file" && hasExecBit e.mode && (parsePluginName (S e.name)).isSome
+  let mayLaunch (e : EntryIn) : Bool :=
+    pluginFile e || (e.kind == "symlink" && (parsePluginName (S e.name)).isSome)
+  let starts := linesOf "start"
+  let count (file : String) := (starts.filter (· == file)).length
+  let configChoice (file : String) : String :=
+    match parsePluginName (S file) with
+    | none => ""
+    | some (_, base) =>
+      let look (n : String) : Option String := match AList.lookup dropins (S n) with
+        | some (.file c) => some (U c) | _ => none
+      match look (file ++ ".conf") with
+      | some c => c
+      | none => match look (U base ++ ".conf") with
+        | some c => c
+        | none => ""
+  -- each check: (holds, sig, why)
+  let checks : List (Bool × String × String) := [
+    (oStart == "ok",
+      (if oStart == "invalid-name" then "C18:misnamed-executable-aborts-start" else s!"C18:start-failed:{oStart}"),
+      s!"Adaptation.Start failed ({oStart}); pre-installed plugins present: {(esIn.filter pluginFile).map (·.name)}; started: {starts}"),
+    (oProbes.all (fun p => p.after != "alive") && oStray == 0, "C18:alive-after-stop",
+      s!"probe processes still running after Stop: {(oProbes.filter (·.after == "alive")).map (·.file)} stray={oStray}"),
+    (esIn.all fun e => !(pluginFile e && observable e && (root || (e.mode / 64) % 2 = 1)) || count e.name == 1,
+      "C18:plugin-not-launched-once",
+      s!"start counts: {(esIn.filter pluginFile).map fun e => (e.name, count e.name)}"),
+    (starts.all (fun f => esIn.any fun e => e.name == f && mayLaunch e) &&
+      oProbes.all (fun p => esIn.any fun e => e.name == p.file && mayLaunch e),
+      "C18:launched-non-plugin", s!"started: {starts}"),
+    (oProbes.all fun p => match parsePluginName (S p.file) with
+        | some (idx, base) => p.env == expectedEnv idx base
+        | none => true,
+      "C18:environment", s!"environments: {oProbes.map fun p => (p.file, p.env)}"),
+    (oProbes.all (fun p => p.fds == expectedFds), "C18:inherited-descriptor",
+      s!"descriptors at entry: {oProbes.map fun p => (p.file, p.fds)}"),
+    (oProbes.all (fun p => !p.configured || (p.config == configChoice p.file && p.runtime == "verif-runtime/v18")),
+      "C18:config-choice", s!"configurations: {oProbes.map fun p => (p.file, p.config, configChoice p.file)}"),
+    (nondecreasing (starts.map idxOfFile) && nondecreasing ((linesOf "create:r1").map idxOfFile) &&
+      nondecreasing ((linesOf "create:r2").map idxOfFile),
+      "C18:order", s!"start {starts} r1 {linesOf "create:r1"} r2 {linesOf "create:r2"}"),
+    (esIn.all fun e =>
+        !(mayLaunch e && observable e && count e.name == 1) ||
+        (let evs := eventsFor e.name
+         match e.behave with
+         | "ok" => evs == ["start", "configure", "synchronize", "create:r1", "create:r2"]
+         | "die" => evs == ["start", "configure", "synchronize", "create:r1"]
+         | "syncfail" => evs == ["start", "configure", "synchronize"]
+         | "cfgfail" => evs == ["start", "configure"]
+         | _ => evs == ["start"]),
+      "C18:skip", s!"events: {(esIn.filter fun e => mayLaunch e && observable e).map fun e => (e.name, eventsFor e.name)}"),
+    (oR1 == "" && oR2 == "", "C18:request-failed", s!"r1={oR1} r2={oR2}"),
+    (oProbes.all (fun p => p.after != "zombie"),
+      "C18:unreaped-child:" ++ "+".intercalate (sortStrings ((oProbes.filter (·.after == "zombie")).map fun p =>
+          match esIn.find? (·.name == p.file) with | some e => e.behave | none => "?").eraseDups),
+      s!"unreaped (zombie) children of the runtime after Stop: {(oProbes.filter (·.after == "zombie")).map (·.file)}")
+  ]
+  let inDomain := !anyDirDropin
+  let failing := checks.find? fun (ok, _, _) => !ok
+  let (spec, sig, swhy) := match failing with
+    | some (_, sg, w) => (false, sg, w)
+    | none => (true, "", "")
+  let spec := spec || !inDomain
+  let kinds := esIn.map fun e =>
+    if e.kind == "file" then
+      s!"entry:file:{e.content}:{if hasExecBit e.mode then "x" else "nox"}:{if (parsePluginName (S e.name)).isSome then "named" else "misnamed"}"
+    else if e.kind == "symlink" then s!"entry:symlink:{e.target}:{if (parsePluginName (S e.name)).isSome then "named" else "misnamed"}"
+    else s!"entry:dir:{if (parsePluginName (S e.name)).isSome then "named" else "misnamed"}"
+  let behaves := (esIn.filter fun e => mayLaunch e && observable e).map fun e => s!"behaviour:{e.behave}"
+  let cfgs := oProbes.filter (·.configured) |>.map fun p =>
+    match parsePluginName (S p.file) with
+    | none => "cfg:?"
+    | some (_, base) =>
+      if (AList.lookup dropins (S (p.file ++ ".conf"))).isSome then "cfg:specific"
+      else if (AList.lookup dropins (base ++ confSuffix)).isSome then "cfg:generic" else "cfg:none"
+  let cover := [s!"stream:{stream}", s!"start:{oStart}", s!"launched:{oProbes.length}"]
+    ++ kinds.eraseDups ++ behaves.eraseDups ++ cfgs.eraseDups
+    ++ (oProbes.map fun p => s!"after:{p.after}").eraseDups
+    ++ (if nodir then ["no-plugin-dir"] else []) ++ (if nodropins then ["no-dropin-dir"] else [])
+    ++ (if !inDomain then ["excluded"] else [])
+  pure { agree := agree, spec := spec,
+         why := if !spec then swhy else if !agree then mwhy else "",
+         cover := cover, nontrivial := inDomain && !esIn.isEmpty,
+         sig := if !inDomain then "guard:dropin-is-a-directory:start=" ++ oStart else if spec then "" else sig,
+         excluded := !inDomain, model := Json.str mdesc }
+
 def main : IO UInt32 := runLines judge
 end Drv.C18
